@@ -1,5 +1,5 @@
 SPECIFICATION Spec
-CONSTANTS NU = 2  NG = 3  NC = 0  MaxOps = 4  Spurious = FALSE
+CONSTANTS NU = 2  NG = 3  NC = 0  MaxOps = 5  Spurious = FALSE
   Amts <- A1  Ops <- OpsA  KickSets <- KS
   ClearAtomic = TRUE  LogAtomic = TRUE  KickConsume = TRUE  OfflineOnVeto = TRUE  OnlineFloor = TRUE
 INVARIANT NoViolation
